@@ -51,6 +51,7 @@ META = {
 
 ATOL = 1e-5
 RATIOS: dict = {}
+torch.set_num_threads(1)   # tiny tensors: OpenMP fan-out only costs time on a shared machine
 
 
 def track(name: str, err: float, tol: float):
@@ -270,7 +271,37 @@ def exact_tol(eps, st, sc, S, det):
     return 64 * eps * (st["Dt"] + sc * st["Ds"]) * cent * kap
 
 
+def drive(ctx: Ctx, gens):
+    """run generator-style checks in lock-step so that all their model requests of one round go to the driver in a
+    single batch (the driver fans a batch out over processes); returns the generators' results"""
+    results = [None] * len(gens)
+    pending = {}
+    for i, g in enumerate(gens):
+        try:
+            pending[i] = next(g)
+        except StopIteration as e:
+            results[i] = e.value
+    while pending:
+        order = list(pending)
+        flat = [ln for i in order for ln in pending[i]]
+        reps = ctx.driver.run(flat) if flat else []
+        pos, nxt = 0, {}
+        for i in order:
+            k = len(pending[i])
+            try:
+                nxt[i] = gens[i].send(reps[pos:pos + k])
+            except StopIteration as e:
+                results[i] = e.value
+            pos += k
+        pending = nxt
+    return results
+
+
 def check_align_case(ctx: Ctx, case, use_model=True) -> bool:
+    return drive(ctx, [check_align_gen(ctx, case, use_model)])[0]
+
+
+def check_align_gen(ctx: Ctx, case, use_model=True):
     fn, dtype, N = case["fn"], case["dtype"], case["N"]
     eps = common.EPS[dtype]
     src_t, tgt_t, S64, T64, truths = materialise(case)
@@ -296,7 +327,7 @@ def check_align_case(ctx: Ctx, case, use_model=True) -> bool:
             lines.append(f"c17.svdtf {N} {pts}")
         else:
             lines.append(f"c17.svdstf {1 if case['with_scale'] else 0} {N} {pts}")
-    reps = ctx.driver.run(lines) if use_model else [None] * nb
+    reps = (yield lines) if use_model else [None] * nb
     model = []
     for rep in reps:
         if rep is None:
@@ -311,15 +342,23 @@ def check_align_case(ctx: Ctx, case, use_model=True) -> bool:
         else:
             model.append(("ok", [float(common.from_wire(t)) for t in payload]))
     m_raises = [m for m in model if m and m[0] == "raise"]
+    # mat2Sim3's rank test looks at the whole batch: it raises only if *every* item has a scale below atol; any other
+    # conversion error (orthogonality / determinant) of one item raises for the batch
+    m_all_rank = bool(m_raises) and len(m_raises) == nb and all(m[1] == "notFullRank" for m in m_raises)
+    m_other = [m for m in m_raises if m[1] != "notFullRank"]
     if raised is not None:
-        if use_model and not m_raises:
+        if use_model and not (m_all_rank or m_other):
             ctx.disagree("align.raise", case, f"{fn} raised {type(raised).__name__}: {str(raised)[:100]} but the model returns a value")
             ctx.fail(case, f"raises: {fn} raises {type(raised).__name__} ({str(raised)[:80]}) on valid corresponding point sets")
             return False
+        ctx.count("align.both-raise")
         return ok      # both raise (outside the quantifier: scale below the rank threshold) — agreement
-    if m_raises:
+    if m_all_rank or m_other:
         ctx.disagree("align.raise", case, f"model raises {m_raises[0][1]} but {fn} returned a value")
         return False
+    if m_raises:
+        ctx.count("align.rank-test-masked-by-batch", len(m_raises))
+        model = [None if (m and m[0] == "raise") else m for m in model]
     P = pp()
     want_type = P.SE3_type if fn == "svdtf" else P.Sim3_type
     dim = 7 if fn == "svdtf" else 8
@@ -333,7 +372,7 @@ def check_align_case(ctx: Ctx, case, use_model=True) -> bool:
     for i in range(nb):
         pts = common.wire_list(S64[i if case["bcast"] != "src1" else 0].flatten().tolist()) + " " + common.wire_list(T64[i].flatten().tolist())
         lines2.append(f"c17.cost{dim} {N} {common.wire_list(Xf[i].tolist())} {pts}")
-    reps2 = ctx.driver.run(lines2) if use_model and bool(torch.isfinite(Xf).all()) else [None] * nb
+    reps2 = (yield lines2) if use_model and bool(torch.isfinite(Xf).all()) else [None] * nb
     for i in range(nb):
         src = S64[i if case["bcast"] != "src1" else 0]
         tgt = T64[i]
@@ -477,6 +516,7 @@ def sig_align(case):
 
 
 def run_align(ctx: Ctx, cases):
+    gens = []
     for case in cases:
         it = case["items"][0]
         nontrivial = not (it["qkind"] == "identity" and it["noise"] == 0 and it["tmag"] == 0)
@@ -484,8 +524,11 @@ def run_align(ctx: Ctx, cases):
         ctx.count(f"align.{case['fn']}.cloud.{it['cloud']}")
         ctx.count(f"align.dtype.{case['dtype']}")
         ctx.count(f"align.batchrank.{len(case['batch'])}")
-        check_align_case(ctx, case)
+        ctx.count(f"align.noise.{it['noise']}")
+        ctx.count(f"align.rotation.{it['qkind']}")
+        gens.append(check_align_gen(ctx, case))
         ctx.sample({k: v for k, v in case.items() if k != "items"} | {"item0": case["items"][0]}, cap=4)
+    drive(ctx, gens)
 
 
 # ----------------------------------------------------------------------------- ICP stream
@@ -576,7 +619,8 @@ def icp_spec(r: random.Random, N, inside: bool, **kw) -> dict:
             "perm": r.random() < 0.8, "init": "none" if inside else r.choice(["none", "ctor", "forward", "both"]),
             "init_small": True, "init_t": r.choice([0.0, 0.01, 0.2]),
             "passes": r.choice([0, 1, 1, 2, 3, 4, 6]), "stepper": r.choice(["fixed", "fixed", "fixed", "bason", "default"]),
-            "dtype": r.choice(["float64", "float64", "float32"]), "repeat": r.random() < 0.4, "batch": r.choice([0, 0, 0, 1, 2])}
+            "dtype": r.choice(["float64", "float64", "float32"]), "repeat": r.random() < 0.4, "batch": r.choice([0, 0, 0, 1, 2]),
+            "inside": inside}
     spec.update(kw)
     return spec
 
@@ -608,6 +652,10 @@ def run_icp_once(spec, src_t, tgt_t, init_vec, stepper, module=None):
 
 
 def check_icp_case(ctx: Ctx, spec, use_model=True) -> bool:
+    return drive(ctx, [check_icp_gen(ctx, spec, use_model)])[0]
+
+
+def check_icp_gen(ctx: Ctx, spec, use_model=True):
     P = pp()
     dtype = spec["dtype"]
     eps = common.EPS[dtype]
@@ -640,6 +688,7 @@ def check_icp_case(ctx: Ctx, spec, use_model=True) -> bool:
             warnings.simplefilter("ignore")
             try:
                 out, module = mon.call("ICP", run_icp_once, spec, St, Tt, init, stp)
+                seen_first = list(stp.seen) if stp is not None else None
                 if spec["repeat"]:
                     # second call on the same module object (the stepper must be reset, no state may leak)
                     out2, _ = run_icp_once(spec, St, Tt, init, stp, module=module)
@@ -647,6 +696,17 @@ def check_icp_case(ctx: Ctx, spec, use_model=True) -> bool:
                         ctx.fail(case, f"history: the second ICP call on the same module returns a different transform "
                                        f"(max diff {float((out.tensor() - out2.tensor()).abs().max()):.3e}, passes={n})")
                         ok = False
+                    if spec["init"] in ("forward", "both"):
+                        # a third call *without* forward-init must fall back to the constructor's init (none / the
+                        # constructor's), exactly like a fresh module: forward's init must not persist
+                        spec3 = dict(spec, init=("none" if spec["init"] == "forward" else "ctor"))
+                        init3 = None if spec["init"] == "forward" else [3.0, -2.0, 1.0, 0.0, 0.0, 0.0, 1.0]
+                        out3 = module(St, Tt)
+                        fresh, _ = run_icp_once(spec3, St, Tt, init3, stp)
+                        if not torch.equal(out3.tensor(), fresh.tensor()):
+                            ctx.fail(case, f"history: after a call with forward(init=...) a call without init differs from a fresh module "
+                                           f"(max diff {float((out3.tensor() - fresh.tensor()).abs().max()):.3e}, passes={n})")
+                            ok = False
             except Exception as e:  # noqa: BLE001
                 ctx.fail(case, f"raises: ICP raises {type(e).__name__}: {str(e)[:100]} (passes={n}, stepper={spec['stepper']})")
                 return False
@@ -677,7 +737,7 @@ def check_icp_case(ctx: Ctx, spec, use_model=True) -> bool:
             ctx.fail(case, f"monotone: mean squared closest-point distance rises from {prevE:.6e} to {En:.6e} between {n - 1} and {n} passes")
             ok = False
         prevE = En
-        seen = stp.seen if stp is not None else None
+        seen = seen_first
         results[n] = (X, En, seen)
         if n == 0:
             # zero passes: the result must act like the initial transform on the source points
@@ -699,20 +759,22 @@ def check_icp_case(ctx: Ctx, spec, use_model=True) -> bool:
                            f"(angle={spec['ang']}, shift={spec['tr']}, passes={passes_done}, stepper={spec['stepper']})")
             ok = False
     # model
-    if use_model and passes_done is not None and spec["N"] <= 40 and len(tgt) <= 60:
+    if use_model and passes_done is not None and spec["N"] * len(tgt) * (passes_done + 1) <= 4000:
         args = [str(passes_done), "1" if init64 is not None else "0", str(len(src)), str(len(tgt))]
         nums = (init64.tolist() if init64 is not None else []) + S64.flatten().tolist() + T64.flatten().tolist()
-        rep = ctx.driver.run([f"c17.icp {' '.join(args)} {common.wire_list(nums)}"])[0]
+        rep = (yield [f"c17.icp {' '.join(args)} {common.wire_list(nums)}"])[0]
         stt, payload = common.parse_reply(rep)
         if stt == "err":
             raise InfraError(f"C17 driver (icp) failed: {payload}")
         mv = [float(common.from_wire(t)) for t in payload]
-        mX, margin = mv[0:7], mv[7]
-        merrs = mv[8:8 + passes_done]
-        msscd = mv[8 + passes_done:8 + 2 * passes_done + 1]
+        mX, margin, cond = mv[0:7], mv[7], mv[8]
+        merrs = mv[9:9 + passes_done]
+        msscd = mv[9 + passes_done:9 + 2 * passes_done + 1]
         mres = mv[-1]
         ext = float((T64 - T64.mean(0)).norm(dim=-1).max()) + 1e-300
-        if margin > 1e-6 * ext * ext:
+        if cond < 1e-4:
+            ctx.count("icp.degenerate-alignment-skipped")
+        elif margin > 1e-6 * ext * ext:
             ctx.count("icp.model")
             # errors handed to the stepper
             for j, (a, b) in enumerate(zip([float(s.reshape(-1)[0]) for s in seen], merrs)):
@@ -724,7 +786,7 @@ def check_icp_case(ctx: Ctx, spec, use_model=True) -> bool:
                 ctx.disagree("icp.objective", case, f"mean squared closest-point distance of the result: implementation {En!r} model {mres / len(src)!r}")
                 ok = False
             for a, b in zip(msscd, msscd[1:]):
-                if b > a * (1 + 1e-40) + 1e-300:
+                if b > a + 1e-40 * (a + D * D * len(src)):
                     raise InfraError("model ICP objective not monotone — contradicts theorem icp_monotone")
         else:
             ctx.count("icp.near-tie-skipped")
@@ -739,9 +801,9 @@ def icp_corner_specs():
     for stepper, passes, rep, dt, nb in (("fixed", 3, True, "float64", 0), ("default", 1, True, "float64", 0), ("bason", 4, False, "float64", 2),
                                         ("fixed", 2, False, "float32", 0), ("default", 1, False, "float32", 1)):
         out.append(icp_spec(fixed, 12, True, **dict(base, ang=0.01, tr=1e-3, passes=passes, stepper=stepper, dtype=dt, repeat=rep, batch=nb,
-                                                    inside=True, extra=3)))
-    out.append(icp_spec(fixed, 3, True, **dict(base, ang=1e-3, tr=1e-3, passes=2, stepper="fixed", dtype="float64", repeat=False, inside=True)))
-    out.append(icp_spec(fixed, 200, True, **dict(base, ang=1e-3, tr=1e-4, passes=2, stepper="fixed", dtype="float64", repeat=False, inside=True)))
+                                                    extra=3)))
+    out.append(icp_spec(fixed, 3, True, **dict(base, ang=1e-3, tr=1e-3, passes=2, stepper="fixed", dtype="float64", repeat=False)))
+    out.append(icp_spec(fixed, 200, True, **dict(base, ang=1e-3, tr=1e-4, passes=2, stepper="fixed", dtype="float64", repeat=False)))
     # outside: monotonicity over passes, init variants
     for init in ("ctor", "forward", "both", "none"):
         out.append(icp_spec(fixed, 20, False, **dict(base, ang=0.4, tr=0.3, tnoise=0.05, extra=5, passes=5, stepper="fixed", dtype="float64",
@@ -751,14 +813,16 @@ def icp_corner_specs():
 
 
 def run_icp(ctx: Ctx, specs):
+    gens = []
     for spec in specs:
         ctx.note_case(("icp", spec["N"] // 10, spec["cloud"], spec["stepper"], spec["passes"], spec["init"], spec["dtype"], spec["batch"],
                        bool(spec.get("inside")), spec["repeat"]), spec["ang"] != 0 or spec["tr"] != 0)
         ctx.count(f"icp.stepper.{spec['stepper']}")
         ctx.count(f"icp.init.{spec['init']}")
         ctx.count("icp.inside" if spec.get("inside") else "icp.outside")
-        check_icp_case(ctx, spec)
+        gens.append(check_icp_gen(ctx, spec))
         ctx.sample({"stream": "icp", **spec}, cap=6)
+    drive(ctx, gens)
 
 
 def random_icp_spec(r: random.Random) -> dict:
@@ -889,7 +953,12 @@ def epnp_compare(ctx, case, est, T, pts, pix, K) -> bool:
         pe = U.apply_vec(E[b], ptsb[b])
         pg = U.apply_vec(G[b], ptsb[b])
         ep = float((pe - pg).abs().max()) / depth
-        tol = case.get("tol", 1e-6)
+        # measured accuracy tiers of the unchanged tree on this scene family (11 000 scenes: worst 3.5e-12 / 2.4e-10 with
+        # refinement for N>=8 / N<8, 4e-10 / 1.7e-8 without) times >= 50: with 6 or 7 points the 12x12 system M^T M
+        # is (nearly) exactly determined and markedly worse conditioned
+        small = case["N"] < 8
+        tol = (2e-8 if small else 1e-9) if case["refine"] else (1e-6 if small else 2e-8)
+        track(f"epnp.{'refine' if case['refine'] else 'norefine'}.{'small' if small else 'big'}", max(er, et, ep), tol)
         ctx.count("epnp.items")
         if not (er <= tol and et <= tol and ep <= tol):
             ctx.fail(case, f"recover: EPnP does not recover the camera pose from exact projections: rotation error {er:.3e}, "
@@ -927,15 +996,14 @@ def run_epnp(ctx: Ctx, specs):
 # ----------------------------------------------------------------------------- entry points
 
 def run(ctx: Ctx):
-    torch.set_num_threads(2)
     rng = ctx.rng
     cases = corner_cases(rng)
-    n = ctx.pick(110, 1500)
+    n = ctx.pick(260, 4000)
     cases += [random_align_case(rng) for _ in range(n)]
     run_align(ctx, cases)
-    specs = icp_corner_specs() + [random_icp_spec(rng) for _ in range(ctx.pick(28, 400))]
+    specs = icp_corner_specs() + [random_icp_spec(rng) for _ in range(ctx.pick(45, 700))]
     run_icp(ctx, specs)
-    especs = epnp_corner_specs() + [epnp_spec(rng) for _ in range(ctx.pick(40, 600))]
+    especs = epnp_corner_specs() + [epnp_spec(rng) for _ in range(ctx.pick(70, 1200))]
     run_epnp(ctx, especs)
     ctx.notes.append("largest error/tolerance ratios: " + ", ".join(f"{k}={v:.3g}" for k, v in sorted(RATIOS.items())))
 
